@@ -63,7 +63,8 @@ class St:
 
     def __init__(self, n, sel, named, same, selty, selval, generic=False, raw=False):
         self.n, self.sel, self.named, self.same, self.generic = n, sel, named, same, generic
-        self.names = [("r#type" if (raw and i == sel) else "f%d" % i) if named else str(i) for i in range(n)]
+        pool = ["zeta", "_under", "alpha"]   # declaration order is not alphabetical order; a name starting with `_`
+        self.names = [("r#type" if (raw and i == sel) else pool[i]) if named else str(i) for i in range(n)]
         self.selty, self.selval = selty, selval
         self.tys = []
         self.vals = []
